@@ -294,6 +294,330 @@ Section ResumeProofs.
   Qed.
 End ResumeProofs.
 
+(** ---------- exception classes: which failures the handlers clean up ---------- *)
+Lemma handler_cls_keeps H e o : forallb keeps_dest (handler_after_cls H e o) = true.
+Proof.
+  destruct o; simpl; try reflexivity;
+    try (destruct (catches (h_enter H) e); reflexivity);
+    try (destruct (catches (h_exit H) e); reflexivity).
+Qed.
+
+Lemma fault_cls_dest_safe H e old chunks k :
+  let s := run_fault_cls H e k (prog_ok commit_replace chunks) (init old) in
+  dest s = old \/ dest s = Some (concat chunks).
+Proof.
+  cbv zeta. unfold run_fault_cls.
+  destruct (nth_error (prog_ok commit_replace chunks) k) as [o|] eqn:E.
+  - rewrite run_keeps_dest by apply handler_cls_keeps.
+    apply (atomic_prefix_replace old chunks k).
+  - rewrite complete_replace. right; reflexivity.
+Qed.
+
+Lemma handler_cls_eq H e o :
+  catches (h_enter H) e = true -> catches (h_exit H) e = true ->
+  handler_after_cls H e o = handler_after o.
+Proof. intros He Hx. destruct o; simpl; rewrite ?He, ?Hx; reflexivity. Qed.
+
+Lemma fault_cls_clean H e old chunks k o :
+  catches (h_enter H) e = true -> catches (h_exit H) e = true ->
+  nth_error (prog_ok commit_replace chunks) k = Some o ->
+  no_tmp (run_fault_cls H e k (prog_ok commit_replace chunks) (init old)) = true.
+Proof.
+  intros He Hx E.
+  pose proof (fault_clean old chunks k o E) as F.
+  unfold run_fault in F. unfold run_fault_cls. rewrite E in *.
+  rewrite (handler_cls_eq H e o He Hx). exact F.
+Qed.
+
+Lemma covers_handled_spec H e :
+  covers_handled H = true -> In e handled_classes ->
+  catches (h_enter H) e = true /\ catches (h_exit H) e = true.
+Proof.
+  unfold covers_handled. intros C I. rewrite forallb_forall in C.
+  specialize (C e I). apply andb_prop in C. exact C.
+Qed.
+
+Lemma fault_handled_clean H e old chunks k o :
+  covers_handled H = true -> In e handled_classes ->
+  nth_error (prog_ok commit_replace chunks) k = Some o ->
+  no_tmp (run_fault_cls H e k (prog_ok commit_replace chunks) (init old)) = true.
+Proof.
+  intros C I E. destruct (covers_handled_spec H e C I) as [He Hx].
+  exact (fault_cls_clean H e old chunks k o He Hx E).
+Qed.
+
+(** the clauses of the present source: `except Exception` twice *)
+Definition handlers_exception : handlers := {| h_enter := [BException]; h_exit := [BException] |}.
+Lemma handlers_exception_cover : covers_handled handlers_exception = true.
+Proof. reflexivity. Qed.
+
+(** narrowed to OSError they no longer clean up after a ValueError *)
+Lemma oserror_only_leaks :
+  exists e old chunks k,
+    In e handled_classes /\
+    no_tmp (run_fault_cls {| h_enter := [BOSError]; h_exit := [BOSError] |} e k
+              (prog_ok commit_replace chunks) (init old)) = false.
+Proof. exists EValue, (Some [79]), [[78]], 1%nat. split; [right; left; reflexivity|reflexivity]. Qed.
+
+(** an exception that is not an Exception (KeyboardInterrupt) raised in the body is still cleaned up *)
+Lemma body_failure_clean_any_class old chunks j :
+  no_tmp (run (prog_fail [] chunks j) (init old)) = true.
+Proof. rewrite fail_clean. reflexivity. Qed.
+
+(** ---------- zip targets ---------- *)
+Definition zkeeps (o : zop) : bool :=
+  match o with
+  | ZReplace | ZCreate Dest | ZAdd Dest => false
+  | _ => true
+  end.
+
+Lemma zexec_keeps s o : zkeeps o = true -> zdest (zexec s o) = zdest s.
+Proof.
+  destruct o as [| | | c | | t | t | t | | |]; try destruct t; simpl; intros Hk;
+    try reflexivity; try discriminate;
+    try (destruct (zfile s); reflexivity); try (destruct (zinner s); reflexivity).
+Qed.
+
+Lemma zrun_keeps l s : forallb zkeeps l = true -> zdest (zrun l s) = zdest s.
+Proof.
+  revert s; induction l as [|o l IH]; intros s Hl; [reflexivity|].
+  simpl in Hl. apply andb_prop in Hl. destruct Hl as [Ho Hl].
+  unfold zrun in *. simpl. rewrite (IH (zexec s o) Hl). apply zexec_keeps; exact Ho.
+Qed.
+
+Lemma zrun_app a b s : zrun (a ++ b) s = zrun b (zrun a s).
+Proof. unfold zrun. apply fold_left_app. Qed.
+
+Lemma zrun_writes chunks d o st i t :
+  zrun (map ZWrite chunks) {| zdest := d; zouter := o; zstaged := st; zinner := i; zfile := Some t |}
+  = {| zdest := d; zouter := o; zstaged := st; zinner := i; zfile := Some (t ++ concat chunks) |}.
+Proof.
+  revert t; induction chunks as [|c cs IH]; intros t; simpl.
+  - rewrite app_nil_r. reflexivity.
+  - unfold zrun in *. simpl. rewrite IH. rewrite <- app_assoc. reflexivity.
+Qed.
+
+(** everything a `.zip` write does before the single replace *)
+Definition zpre (chunks : list content) : list zop :=
+  [ZMkOuter; ZMkInner; ZOpenFile] ++ map ZWrite chunks
+  ++ [ZClose; ZTryOpen Staged; ZCreate Staged; ZAdd Staged; ZRmInner].
+
+Lemma zprog_staged_split chunks : zprog_staged chunks = zpre chunks ++ [ZReplace; ZRmOuter].
+Proof. unfold zprog_staged, zpre. rewrite <- !app_assoc. reflexivity. Qed.
+
+Lemma zpre_keeps chunks : forallb zkeeps (zpre chunks) = true.
+Proof.
+  unfold zpre. simpl. rewrite forallb_app. simpl. rewrite andb_true_r.
+  induction chunks; simpl; auto.
+Qed.
+
+Lemma zrun_zpre chunks old :
+  zrun (zpre chunks) (zinit old)
+  = {| zdest := old; zouter := true; zstaged := Some (Members [concat chunks]); zinner := false; zfile := None |}.
+Proof.
+  unfold zpre. rewrite !zrun_app. unfold zinit.
+  change (zrun [ZMkOuter; ZMkInner; ZOpenFile] {| zdest := old; zouter := false; zstaged := None; zinner := false; zfile := None |})
+    with {| zdest := old; zouter := true; zstaged := None; zinner := true; zfile := Some [] |}.
+  rewrite zrun_writes. reflexivity.
+Qed.
+
+Lemma zip_staged_prefix old chunks k :
+  let s := zrun (firstn k (zprog_staged chunks)) (zinit old) in
+  zdest s = old \/ zdest s = Some (Members [concat chunks]).
+Proof.
+  cbv zeta. rewrite zprog_staged_split, firstn_app, zrun_app.
+  destruct (Nat.le_gt_cases k (length (zpre chunks))) as [Hle|Hgt].
+  - left. rewrite (proj2 (Nat.sub_0_le _ _) Hle).
+    simpl firstn. unfold zrun at 1. simpl fold_left.
+    rewrite zrun_keeps; [reflexivity|]. apply forallb_firstn, zpre_keeps.
+  - rewrite (firstn_all2 (zpre chunks)) by (apply Nat.lt_le_incl; exact Hgt). rewrite zrun_zpre.
+    remember (k - length (zpre chunks))%nat as m eqn:Em.
+    destruct m as [|[|m]].
+    + exfalso. symmetry in Em. apply Nat.sub_0_le in Em. apply (Nat.lt_irrefl k). eapply Nat.le_lt_trans; eauto.
+    + right; reflexivity.
+    + right; destruct m; reflexivity.
+Qed.
+
+Lemma zip_staged_complete old chunks :
+  zrun (zprog_staged chunks) (zinit old)
+  = {| zdest := Some (Members [concat chunks]); zouter := false; zstaged := None; zinner := false; zfile := None |}.
+Proof. rewrite zprog_staged_split, zrun_app, zrun_zpre. reflexivity. Qed.
+
+(** an archive appended to where it is: a death right after ZipFile created the
+    (still empty) file leaves something that is neither absent nor an archive *)
+Lemma zip_append_not_atomic :
+  exists chunks k,
+    let s := zrun (firstn k (zprog_append false chunks)) (zinit None) in
+    zdest s <> None /\ zdest s <> Some (Members [concat chunks]).
+Proof. exists [[78; 69; 87]], 6%nat. vm_compute. split; discriminate. Qed.
+
+(** committing a `.zip` DESTINATION that way keeps the previous member: not "exactly the new content" *)
+Lemma zip_append_keeps_old_member :
+  exists o chunks,
+    zdest (zrun (zprog_append true chunks) (zinit (Some (Members [o])))) = Some (Members [o; concat chunks])
+    /\ Some (Members [o; concat chunks]) <> Some (Members [concat chunks]).
+Proof. exists [79; 76; 68], [[78; 69; 87]]. split; [reflexivity|discriminate]. Qed.
+
+(** ---------- resume with not-completed records ---------- *)
+Section ResumeNCProofs.
+  Variable g : Z -> Z * bool.
+
+  Lemma has_c_set_other st i j v : (i =? j) = false -> has_c (set_rec st i v) j = has_c st j.
+  Proof.
+    intros Hij. induction st as [|p t IH]; simpl.
+    - rewrite Hij. reflexivity.
+    - destruct (fst p =? i) eqn:Ep.
+      + apply Z.eqb_eq in Ep. simpl. rewrite Ep, Hij. reflexivity.
+      + simpl. rewrite IH. reflexivity.
+  Qed.
+
+  Lemma set_rec_idem st i v : set_rec (set_rec st i v) i v = set_rec st i v.
+  Proof.
+    induction st as [|p t IH]; simpl.
+    - rewrite Z.eqb_refl. reflexivity.
+    - destruct (fst p =? i) eqn:Ep; simpl.
+      + rewrite Z.eqb_refl. reflexivity.
+      + rewrite Ep, IH. reflexivity.
+  Qed.
+
+  Lemma set_rec_fixed_other st i j v w :
+    (i =? j) = false -> set_rec st i w = st -> set_rec (set_rec st j v) i w = set_rec st j v.
+  Proof.
+    intros Hij. induction st as [|p t IH]; simpl; intros Hfix.
+    - discriminate.
+    - destruct (fst p =? i) eqn:Epi.
+      + assert (Epj : (fst p =? j) = false).
+        { apply Z.eqb_eq in Epi. rewrite Epi. exact Hij. }
+        rewrite Epj. simpl. rewrite Epi. injection Hfix as Hp. rewrite Hp. reflexivity.
+      + injection Hfix as Ht. destruct (fst p =? j) eqn:Epj; simpl.
+        * assert (Eji : (j =? i) = false) by (rewrite Z.eqb_sym; exact Hij).
+          rewrite Eji, Ht. reflexivity.
+        * rewrite Epi, (IH Ht). reflexivity.
+  Qed.
+
+  (** [i] is settled in [st]: processing it again changes nothing *)
+  Definition okrec (st : list rec) (i : Z) : Prop := has_c st i = true \/ set_rec st i (g i) = st.
+
+  Lemma okrec_step_same st i : okrec st i -> step_nc g st i = st.
+  Proof. unfold step_nc. intros [H|H]; [rewrite H; reflexivity|]. destruct (has_c st i); [reflexivity|exact H]. Qed.
+
+  Lemma okrec_after_step st i : okrec (step_nc g st i) i.
+  Proof.
+    unfold step_nc. destruct (has_c st i) eqn:E.
+    - left; exact E.
+    - right. apply set_rec_idem.
+  Qed.
+
+  Lemma okrec_step_other st i j : okrec st i -> okrec (step_nc g st j) i.
+  Proof.
+    intros Hok. destruct (j =? i) eqn:Eji.
+    - apply Z.eqb_eq in Eji. subst j. rewrite (okrec_step_same st i Hok). exact Hok.
+    - unfold step_nc. destruct (has_c st j); [exact Hok|].
+      destruct Hok as [H|H].
+      + left. rewrite has_c_set_other by exact Eji. exact H.
+      + right. apply set_rec_fixed_other; [rewrite Z.eqb_sym; exact Eji|exact H].
+  Qed.
+
+  Lemma okrec_apply st l i : okrec st i -> okrec (apply_nc g l st) i.
+  Proof.
+    revert st; induction l as [|a l IH]; intros st H; [exact H|].
+    unfold apply_nc in *. simpl. apply IH. apply okrec_step_other; exact H.
+  Qed.
+
+  Lemma okrec_all_after l st i : In i l -> okrec (apply_nc g l st) i.
+  Proof.
+    revert st; induction l as [|a l IH]; intros st Hi; [destruct Hi|].
+    change (apply_nc g (a :: l) st) with (apply_nc g l (step_nc g st a)).
+    destruct Hi as [->|Hi].
+    - apply okrec_apply. apply okrec_after_step.
+    - apply IH; exact Hi.
+  Qed.
+
+  Lemma apply_nc_settled l st : (forall i, In i l -> okrec st i) -> apply_nc g l st = st.
+  Proof.
+    induction l as [|a l IH]; intros H; [reflexivity|].
+    change (apply_nc g (a :: l) st) with (apply_nc g l (step_nc g st a)).
+    rewrite (okrec_step_same st a (H a (or_introl eq_refl))).
+    apply IH. intros i Hi. apply H. right; exact Hi.
+  Qed.
+
+  (** running the same inputs a second time changes nothing *)
+  Lemma apply_nc_idem l st : apply_nc g l (apply_nc g l st) = apply_nc g l st.
+  Proof. apply apply_nc_settled. intros i Hi. apply okrec_all_after; exact Hi. Qed.
+
+  Lemma apply_nc_app a b st : apply_nc g (a ++ b) st = apply_nc g b (apply_nc g a st).
+  Proof. unfold apply_nc. apply fold_left_app. Qed.
+
+  (** a completed record stays completed *)
+  Lemma step_nc_keeps_has st i j : has_c st j = true -> has_c (step_nc g st i) j = true.
+  Proof.
+    intros H. unfold step_nc. destruct (has_c st i) eqn:Ei; [exact H|].
+    destruct (i =? j) eqn:Eij.
+    - apply Z.eqb_eq in Eij. subst j. rewrite H in Ei. discriminate.
+    - rewrite has_c_set_other by exact Eij. exact H.
+  Qed.
+
+  Lemma apply_nc_keeps_has l st j : has_c st j = true -> has_c (apply_nc g l st) j = true.
+  Proof.
+    revert st; induction l as [|i l IH]; intros st H; [exact H|].
+    unfold apply_nc in *. simpl. apply IH. apply step_nc_keeps_has; exact H.
+  Qed.
+
+  Lemma apply_nc_filter_sub inputs st st0 :
+    (forall j, has_c st0 j = true -> has_c st j = true) ->
+    apply_nc g inputs st = apply_nc g (filter (fun i => negb (has_c st0 i)) inputs) st.
+  Proof.
+    revert st; induction inputs as [|i l IH]; intros st Hsub; [reflexivity|].
+    simpl filter. destruct (has_c st0 i) eqn:E0; simpl negb; cbv iota.
+    - change (apply_nc g (i :: l) st) with (apply_nc g l (step_nc g st i)).
+      unfold step_nc at 1. rewrite (Hsub i E0). apply IH; exact Hsub.
+    - change (apply_nc g (i :: l) st) with (apply_nc g l (step_nc g st i)).
+      change (apply_nc g (i :: filter (fun i0 => negb (has_c st0 i0)) l) st)
+        with (apply_nc g (filter (fun i0 => negb (has_c st0 i0)) l) (step_nc g st i)).
+      apply IH. intros j Hj. apply step_nc_keeps_has, Hsub, Hj.
+  Qed.
+
+  (** resuming after an interruption at ANY point, with ANY inputs failing, ends in the store of the uninterrupted run *)
+  Lemma resume_nc_same k inputs st :
+    apply_nc g inputs (interrupted_nc g k inputs st) = apply_nc g inputs st.
+  Proof.
+    unfold interrupted_nc.
+    set (P := processed_nc inputs st).
+    set (st1 := apply_nc g (firstn k P) st).
+    assert (Hmono : forall j, has_c st j = true -> has_c st1 j = true)
+      by (intros j Hj; apply apply_nc_keeps_has; exact Hj).
+    rewrite (apply_nc_filter_sub inputs st1 st Hmono).
+    rewrite (apply_nc_filter_sub inputs st st (fun j H => H)).
+    fold (processed_nc inputs st). fold P.
+    rewrite <- (firstn_skipn k P) at 1 2. rewrite !apply_nc_app.
+    fold st1. unfold st1 at 1. rewrite apply_nc_idem. reflexivity.
+  Qed.
+
+  (** an input with a completed record is never processed again *)
+  Lemma resume_nc_skips_completed k inputs st i :
+    In i (processed_nc inputs (interrupted_nc g k inputs st)) ->
+    has_c (interrupted_nc g k inputs st) i = false.
+  Proof.
+    unfold processed_nc. rewrite filter_In. intros [_ H]. apply negb_true_iff in H. exact H.
+  Qed.
+
+  (** ... and every input without one is *)
+  Lemma resume_nc_processes_rest k inputs st i :
+    In i inputs -> has_c (interrupted_nc g k inputs st) i = false ->
+    In i (processed_nc inputs (interrupted_nc g k inputs st)).
+  Proof.
+    intros Hi H. unfold processed_nc. rewrite filter_In. split; [exact Hi|]. rewrite H. reflexivity.
+  Qed.
+End ResumeNCProofs.
+
+Example ex_zip_prefix :
+  zdest (zrun (firstn 8 (zprog_staged [[1]; [2]])) (zinit (Some (Members [[9]])))) = Some (Members [[9]]).
+Proof. reflexivity. Qed.
+Example ex_resume_nc :
+  let g := fun i => (i * 10, negb (i =? 2)) in
+  apply_nc g [1; 2; 3] (interrupted_nc g 2 [1; 2; 3] []) = [(1, (10, true)); (2, (20, false)); (3, (30, true))].
+Proof. reflexivity. Qed.
+
 (** non-vacuity *)
 Example ex_prefix : dest (run_prefix 4 (prog_ok commit_replace [[1]; [2]]) (init (Some [9]))) = Some [9].
 Proof. reflexivity. Qed.
